@@ -8,7 +8,7 @@
    behave like lists-up-to-order and that nothing mutates the frozen graph - that
    part is checked by execution (harness/props/c15.py) and labelled partial. *)
 From Coq Require Import List Bool NArith.
-From PTA Require Import Names Graph Search Rule SpecRule NamesProofs SearchProofs RuleProofs AlgebraProofs ExpansionProofs PermProofs.
+From PTA Require Import Names Graph Search Rule SpecRule NamesProofs SearchProofs RuleProofs AlgebraProofs ExpansionProofs PermProofs ClassProofs.
 Import ListNotations.
 
 Section C15.
@@ -22,6 +22,14 @@ Theorem C15_order_independent : forall g g' v imp exc (ss ss' os os' : list (@fi
    passes (AlgebraProofs.V ceqb rmatch g' (mk_ucfg v imp exc (map (@to_u comp) ss') (map (@to_u comp) os')))).
 Proof. exact (passes_order_independent ceqb ceqb_spec rmatch). Qed.
 
+(* the whole outcome class - pass (0), AssertionError (1), configuration / lookup error (2) - is independent of the order
+   and duplication of subjects, objects, modules and imports *)
+Theorem C15_class_order_independent : forall g g' v imp exc (ss ss' os os' : list (@filt comp)),
+  graph_equiv g g' -> leq ss ss' -> leq os os' -> ss <> [] -> os <> [] ->
+  vclass (AlgebraProofs.V ceqb rmatch g (mk_ucfg v imp exc (map (@to_u comp) ss) (map (@to_u comp) os))) =
+  vclass (AlgebraProofs.V ceqb rmatch g' (mk_ucfg v imp exc (map (@to_u comp) ss') (map (@to_u comp) os'))).
+Proof. exact (class_order_independent ceqb ceqb_spec rmatch). Qed.
+
 (* the three graph queries: same Ok/error and the same set of reported imports *)
 Theorem C15_query_order_independent : forall g g' d us us',
   graph_equiv g g' -> leq us us' -> res_equiv (q_other_out ceqb g d us) (q_other_out ceqb g' d us').
@@ -34,6 +42,7 @@ Proof. exact (reapply_same ceqb rmatch). Qed.
 End C15.
 
 Print Assumptions C15_order_independent.
+Print Assumptions C15_class_order_independent.
 Print Assumptions C15_query_order_independent.
 Print Assumptions C15_reapply.
 
